@@ -2046,5 +2046,54 @@ pub fn generate_lvalue(tape: &[u32], cfg: &Cfg) -> Program {
     for j in 0..3 {
         main.push(Stmt::Print(Expr::Path(3, vec![Step::Index(Box::new(Expr::Int(j)))])));
     }
-    Program { enums: vec![], models: vec![vec2, body], fns: vec![], main, tags }
+    let mut prog = Program { enums: vec![], models: vec![vec2, body], fns: vec![], main, tags };
+    if !cfg.sw.field_list_neg_index {
+        // reads of `obj.field[-k]` are rewritten to the equivalent non-negative index (lists here have length 3)
+        fn fix_expr(e: &mut Expr) {
+            if let Expr::Path(_, steps) = e {
+                let mut after_field = false;
+                for st in steps.iter_mut() {
+                    match st {
+                        Step::Field(..) => after_field = true,
+                        Step::Index(i) => {
+                            if after_field {
+                                if let Expr::Int(k) = **i {
+                                    if k < 0 {
+                                        **i = Expr::Int(k + 3);
+                                    }
+                                }
+                            }
+                            after_field = false;
+                        }
+                    }
+                }
+            }
+            if let Expr::Bin(_, l, r) = e {
+                fix_expr(l);
+                fix_expr(r);
+            }
+        }
+        fn fix_stmts(ss: &mut [Stmt]) {
+            for s in ss {
+                match s {
+                    Stmt::Print(e) => fix_expr(e),
+                    Stmt::PathSet { e, op, path, .. } => {
+                        fix_expr(e);
+                        // a compound assignment reads its own target
+                        if op.is_some() {
+                            let mut tmp = Expr::Path(0, path.clone());
+                            fix_expr(&mut tmp);
+                            if let Expr::Path(_, p2) = tmp {
+                                *path = p2;
+                            }
+                        }
+                    }
+                    Stmt::ForRange { body, .. } => fix_stmts(body),
+                    _ => {}
+                }
+            }
+        }
+        fix_stmts(&mut prog.main);
+    }
+    prog
 }
